@@ -24,6 +24,9 @@ var corpus = []string{
 	"H 20 0,0,0,0,0 s:e0.0.182641030432767838.0:0;s:e0.0.5.1:0;s:e0.0.182641030432767837.2:0;p:1:0:60000",
 	// truncation
 	"H 2 0,3,0,0,0 s:e0.0.1000000.0:0;s:e1.3.2000000.0:0;s:e1.4.2000000.0:0;s:o2.0.500.0:0;p:1:0:2;p:1:0:1;p:0:0:1",
+	// CleanStaledEIPTx: acts only above 10000 pooled transactions; sender 0 committed at height 1, sender 1 never (recorded at 0)
+	"H 20 0,0,0,0,0 s:e0.0.1000000.0:0;s:e0.1.1000000.0:0;s:e0.2.1000000.0:0;s:e1.0.2000000.0:0;c:e0.0.1000000.0;n:1;k:1;x:60;f:10001:500000000;q:0;q:1;x:50;q:0;x:51;q:0;q:1;p:1:1:4",
+	"H 20 3,0,0,0,0 q:0;s:e0.4.1000000.0:0;q:0;s:e0.3.1000000.0:0;q:0;s:e0.5.1000000.0:0;q:0;r;q:0;s:e0.5.1000000.0:0;q:0;g:0:1:60000;q:0",
 	// Verify alone: the transaction sits in the first / a later / no checked window block
 	"H 20 0,0,0,0,0 n:0;c:e0.0.1000.0;n:1;c:e0.1.1000.1;n:2;y:e0.0.1000.0:0;y:e0.0.1000.0:1;y:e0.0.1000.0:2;y:e0.1.1000.1:2;y:e0.2.1000.2:1;y:e0.2.1000.2:3",
 	"H 0 0,0,0,0,0 s:o1.5.700.0:0;s:o1.5.700.0:0;c:o1.5.700.0;s:o1.5.700.0:0;s:o1.5.700.0:1;p:1:1:60000;r;b:5;v",
@@ -315,6 +318,8 @@ func gen(r *hx.Rand, tier string, i int) string {
 				}
 				g.ops = append(g.ops, fmt.Sprintf("y:%s:%d", tok, r.Intn(g.tip+2)))
 			}
+		case x < 95:
+			g.ops = append(g.ops, fmt.Sprintf("q:%d", r.Intn(nSenders)))
 		case x < 96:
 			g.ops = append(g.ops, "r")
 			for s := range g.subm {
